@@ -121,7 +121,7 @@ def s_part(ck, tier, rng):
 
 def main(tier, seed):
     ck = Check(PID, tier, seed, "Props.C07", ["Model/Master.v", "Model/WakeFlag.v", "Oracle/MasterOracle.v", "Oracle/SimOracle.v",
-                                              "Proofs/MasterP.v", "Proofs/WakeFlagP.v", "Props/C07.v"])
+                                              "Proofs/MasterP.v", "Proofs/WakeFlagP.v", "Model/PyLib.v", "Gen/SourceFuns.v", "Proofs/GenInterruptP.v", "Props/C07.v"])
     ck.build_and_audit()
     rng = random.Random(seed)
     ck.rule = ("(a) real MasterScheduler driven message by message on virtual time with random component-playing scripts "
